@@ -150,6 +150,9 @@ func (n *node) recv(c *conn, cls string, seed int64, limit time.Duration) map[st
 	default:
 	}
 	runtime.ReadMemStats(&m1)
+	if wireDebug {
+		fmt.Fprintf(os.Stderr, "QUIESCE %s quiet=%v closed=%v\n  %s\n", cls, quiet, c.srv.isClosed(), strings.Join(last.raw, "\n  "))
+	}
 	blocked := last.blocked
 	if blocked == nil || !quiet {
 		blocked = []string{}
